@@ -52,8 +52,13 @@ let step _ cs os =
   if has_fwd && get f "k" <> "async" then failwith "forward steps on a client without forward_message";
   if not (ClientMux.c04_wf case) then failwith "case is not well-formed (generator)";
   let out = ref [] in
-  (* sub=0: a WebSocket client on which nobody subscribed to notifications *)
-  let nosub = (get_opt f "sub" = Some "0") in
+  (* sub=0: a WebSocket client on which nobody subscribed to notifications.
+     sub=d: somebody subscribed and dropped the receiver without unsubscribing: there is no
+     notification subscriber either ("server-pushed notifications that reuse an in-flight id
+     (those go only to the notification subscriber)": with the subscriber gone they go nowhere,
+     in particular not to the call in flight), so the case is judged by the same model and
+     oracle: nothing reaches a subscriber, the calls are judged as before *)
+  let nosub = (match get_opt f "sub" with Some "0" | Some "d" -> true | _ -> false) in
   if nosub && not ws then failwith "sub=0 on a client without a notification subscriber";
   let model_of = if nosub then ClientMux.model_C04_nosub else ClientMux.model_C04 in
   let ok = if nosub then ClientMux.ok_C04_nosub else ClientMux.ok_C04 in
